@@ -63,8 +63,11 @@ def seeded_entries():
     pp = os.path.join(d, name, 'patch.diff')
     if os.path.exists(mp) and os.path.exists(pp):
       meta = json.load(open(mp))
-      out.append(dict(id='seeded-' + name, prop=meta['property'], kind='mutant',
-                      patch=pp, edits=[], rule=None))
+      by = meta.get('detected_by')
+      if by is not None and not by:
+        continue        # a recorded miss (see meta.json / DESIGN.md): not an obligation
+      out.append(dict(id='seeded-' + name, prop=(by[0] if by else meta['property']),
+                      kind='mutant', patch=pp, edits=[], rule=None))
   return out
 
 
